@@ -157,6 +157,17 @@ CheckObs(k) ==
         /\ IF {r.t : r \in SeqSet(o.trans)} = NT(c) THEN TRUE ELSE V(o, "transitions-missing", "", Len(c.trans), Len(o.trans))
         /\ \A j \in 1..Len(o.states) : CheckState(c, o, o.states[j])
         /\ \A j \in 1..Len(o.trans) : CheckTrans(c, o, pt, o.trans[j])
+        \* whatever relation a back-end embeds, "conflicts with" is symmetric (the Recommendation's is an
+        \* intersection test); the one-pass selection of the emitted machines consults only the row of the
+        \* transition already selected, so an asymmetric table changes which transitions run together
+        /\ LET cf == [t \in {r.t : r \in SeqSet(o.trans)} |->
+                        UNION {SeqSet(r.conflicts) : r \in {x \in SeqSet(o.trans) : x.t = t}}]
+               asym == {t \in DOMAIN cf \cap Normal(c) :
+                          \E u \in (cf[t] \cap Normal(c)) \ {t} : u \in DOMAIN cf /\ t \notin cf[u]}
+           IN  IF asym = {} THEN TRUE
+               ELSE LET t == CHOOSE x \in asym : TRUE
+                    IN  V(o, "conflicts-asymmetric", c.trans[t].id, TIds(c, {u \in DOMAIN cf : t \in cf[u]}),
+                          TIds(c, cf[t] \cap Normal(c)))
 
 VARIABLE k
 Init == Load /\ k = 1
